@@ -484,6 +484,8 @@ def run(ck):
         compact_order(ck, P, cfg)
     # the gz layer is a port of zlib-ng's gzlib.c / gzread.c / gzwrite.c: conditions, calls and stores of the paired functions
     from .. import condparity
+    from .. import guards as _g
+    _g.gz_error_path(ck, prog("K1"))
     gzkeys = {k for k in condparity.PAIRS if k.startswith("gz")}
     ck.floor("SIB/ref-conditions", condparity.check(ck, prog("K1"), "SIB/ref-conditions", only=gzkeys), 250)
     ck.assumptions += ["rustc MIR", "effect vocabulary and exception list in rules/props/c17.py", "K1 and K2 (gz feature)"]
